@@ -7,6 +7,10 @@ def run(req):
     a = req.get("args", {})
     if fn in ("trajgrad.trap_grad", "trajgrad.min_trap_grad"):
         return _trap(fn, a)
+    if fn == "alg.gm":
+        return _gm(a)
+    if fn == "alg.pdhg":
+        return _pdhg(a)
     if fn == "alg.cg":
         return _cg(a)
     if fn == "alg.cg_krylov":
@@ -206,3 +210,146 @@ def _cg_indefinite(a):
     if n == 1 and np.linalg.norm(alg.x) != 0:
         bad.append("iterate changed on non-positive curvature")
     return dict(reproduced=bool(bad), detail="; ".join(bad) or "stops on non-positive curvature")
+
+
+# ----------------------------------------------------------------------------- C13 gradient method / PDHG
+def _prox_np(kind, lam):
+    if kind == "none":
+        return lambda a, v: v
+    if kind == "l1":
+        return lambda a, v: np.where(np.abs(v) > a * lam, (np.abs(v) - a * lam) * np.exp(1j * np.angle(v)) if np.iscomplexobj(v) else np.sign(v) * (np.abs(v) - a * lam), 0)
+    if kind == "l2sq":
+        return lambda a, v: v / (1 + a * lam)
+    if kind == "box":
+        return lambda a, v: np.clip(v.real, -0.3, 0.3) + (1j * np.clip(v.imag, -0.3, 0.3) if np.iscomplexobj(v) else 0)
+    raise ValueError(kind)
+
+
+def _gval(kind, lam, x):
+    if kind == "none":
+        return 0.0
+    if kind == "l1":
+        return lam * float(np.sum(np.abs(x)))
+    if kind == "l2sq":
+        return lam / 2 * float(np.sum(np.abs(x) ** 2))
+    if kind == "box":
+        ok = np.all(np.abs(x.real) <= 0.3 + 1e-12) and np.all(np.abs(np.imag(x)) <= 0.3 + 1e-12)
+        return 0.0 if ok else np.inf
+    raise ValueError(kind)
+
+
+def _problem(a):
+    rs = np.random.RandomState(int(a.get("seed", 0)))
+    m, n, cplx = int(a["m"]), int(a["n"]), bool(a["complex"])
+    dt = np.complex128 if cplx else np.float64
+    A = (rs.standard_normal((m, n)) + (1j * rs.standard_normal((m, n)) if cplx else 0)).astype(dt)
+    if a.get("ill"):
+        U, s, Vh = np.linalg.svd(A, full_matrices=False)
+        A = (U * np.logspace(0, -2, len(s))) @ Vh
+    y = (rs.standard_normal(m) + (1j * rs.standard_normal(m) if cplx else 0)).astype(dt)
+    L = float(np.linalg.norm(A, 2) ** 2)
+    return A, y, L, dt
+
+
+def _ref_min(A, y, L, kind, lam, dt):
+    prox = _prox_np(kind, lam)
+    x = np.zeros(A.shape[1], dt)
+    z, t = x.copy(), 1.0
+    for _ in range(20000):
+        xo = x
+        x = prox(1 / L, z - (A.conj().T @ (A @ z - y)) / L)
+        tn = (1 + np.sqrt(1 + 4 * t * t)) / 2
+        z = x + ((t - 1) / tn) * (x - xo)
+        t = tn
+    return x
+
+
+def _gm(a):
+    import sigpy as sp
+    A, y, L, dt = _problem(a)
+    kind, lam, acc = a["g"], float(a.get("lam", 0.1)), bool(a["accelerate"])
+    prox = _prox_np(kind, lam)
+    F = lambda v: 0.5 * float(np.linalg.norm(A @ v - y) ** 2) + _gval(kind, lam, v)
+    xs = _ref_min(A, y, L, kind, lam, dt)
+    Fs = F(xs)
+    x = np.zeros(A.shape[1], dt) + (0.2 if kind == "box" else 1.0)
+    x0 = x.copy()
+    xobj = x
+    alpha = float(a.get("alpha_frac", 1.0)) / L
+    alg = sp.alg.GradientMethod(lambda v: A.conj().T @ (A @ v - y), x, alpha, proxg=(None if kind == "none" else prox), accelerate=acc,
+                                max_iter=int(a.get("iters", 60)), tol=-1)
+    bad = []
+    D0 = float(np.linalg.norm(x0 - xs) ** 2)
+    Fprev = F(x)
+    k = 0
+    while not alg.done():
+        alg.update()
+        k += 1
+        if alg.x is not xobj:
+            bad.append("x rebound at update %d" % k)
+            break
+        Fk = F(alg.x)
+        tolr = 1e-9 * max(1.0, abs(Fs))
+        if not acc and Fk > Fprev + tolr:
+            bad.append("objective increased at update %d: %g -> %g" % (k, Fprev, Fk))
+            break
+        bound = (1 / alpha) * D0 / (2 * k) if not acc else 2 * (1 / alpha) * D0 / (k + 1) ** 2
+        if Fk - Fs > bound + tolr + 1e-7 * max(1.0, abs(Fs)):
+            bad.append("gap %g exceeds the %s bound %g at update %d" % (Fk - Fs, "O(1/k^2)" if acc else "O(1/k)", bound, k))
+            break
+        Fprev = Fk
+    return dict(reproduced=bool(bad), detail="; ".join(bad) or "all clauses hold", updates=k)
+
+
+def _pdhg(a):
+    import sigpy as sp
+    A, y, L, dt = _problem(a)
+    kind, lam = a["g"], float(a.get("lam", 0.1))
+    prox = _prox_np(kind, lam)
+    m, n = A.shape
+    xs = _ref_min(A, y, L, kind, lam, dt)
+    us = A @ xs - y           # dual optimum of f(v)=0.5|v-y|^2 : u* = grad f(A x*)
+    nrm = np.sqrt(L)
+    arr = bool(a.get("array_steps"))
+    tau = (0.9 / nrm) * (np.ones(n) if arr else 1.0)
+    sigma = (1.0 / nrm) * (np.ones(m) if arr else 1.0)
+    if arr:
+        rs = np.random.RandomState(5)
+        w = rs.uniform(0.5, 1.0, n)
+        tau = tau * w
+    proxfc = lambda s, v: (v - s * y) / (1 + s)        # prox of sigma f*, f* = 0.5|u|^2 + <u,y>
+    gp, gd = float(a.get("gamma_primal", 0)), float(a.get("gamma_dual", 0))
+    bad = []
+    # saddle point is fixed
+    x, u = xs.copy(), us.copy()
+    alg = sp.alg.PrimalDualHybridGradient(proxfc, prox, lambda v: A @ v, lambda v: A.conj().T @ v, x, u, np.copy(tau), np.copy(sigma), max_iter=3, tol=-1)
+    for _ in range(3):
+        alg.update()
+    if np.linalg.norm(alg.x - xs) > 1e-6 * max(1, np.linalg.norm(xs)) or np.linalg.norm(alg.u - us) > 1e-6 * max(1, np.linalg.norm(us)):
+        bad.append("saddle point moved: dx=%g du=%g" % (np.linalg.norm(alg.x - xs), np.linalg.norm(alg.u - us)))
+    # convergence + in place + Fejer
+    x, u = np.zeros(n, dt), np.zeros(m, dt)
+    xo, uo = x, u
+    iters = int(a.get("iters", 3000))
+    alg = sp.alg.PrimalDualHybridGradient(proxfc, prox, lambda v: A @ v, lambda v: A.conj().T @ v, x, u, np.copy(tau), np.copy(sigma),
+                                          gamma_primal=gp, gamma_dual=gd, max_iter=iters, tol=-1)
+    def M2(da, db):
+        return float(np.sum(np.abs(da) ** 2 / tau) + np.sum(np.abs(db) ** 2 / sigma) - 2 * np.real(np.vdot(A @ da, db)))
+    prev = None
+    k = 0
+    while not alg.done():
+        alg.update()
+        k += 1
+        if alg.x is not xo or alg.u is not uo:
+            bad.append("x/u rebound at update %d" % k)
+            break
+        if gp == 0 and gd == 0 and k <= 200:
+            V = M2((2 * alg.x - alg.x_ext) - xs, alg.u - us)
+            if prev is not None and V > prev * (1 + 1e-9) + 1e-10:
+                bad.append("step-size-weighted distance to the saddle point increased at update %d: %g -> %g" % (k, prev, V))
+                break
+            prev = V
+    err = np.linalg.norm(alg.x - xs) / max(1e-12, np.linalg.norm(xs))
+    if not bad and err > float(a.get("tol", 1e-3)):
+        bad.append("did not converge to the minimiser: relative error %g after %d updates" % (err, k))
+    return dict(reproduced=bool(bad), detail="; ".join(bad) or "all clauses hold", updates=k)
